@@ -47,8 +47,8 @@ S2(e1, e2, n, kinds) == {Scen(<<e1, e2>>, k, MkFlow(xs, HAlt(n))) :
 S1Alt(e, n, kinds) == {sc \in S1(e, n, kinds) : \A i \in 1..Len(sc.flow) : sc.flow[i].h = (i % 2 = 0)}
 Quick(u) == S1(E2, 2, AllKinds) \cup S1(E3, 2, AllKinds) \cup S1Alt(E3, 3, SomeKinds) \cup S1(E4, 2, SomeKinds)
             \cup S2(E3, E3, 2, {"collect2", "mutate"}) \cup S2(E3, E2, 2, {"collect", "pervalue"})
-Thorough(u) == S1(E2, 3, AllKinds) \cup S1(E3, 4, AllKinds) \cup S1(E4, 3, AllKinds)
-               \cup S2(E3, E3, 2, AllKinds) \cup S2(E3, E2, 3, SomeKinds) \cup S2(E2, E4, 2, AllKinds)
+Thorough(u) == S1(E2, 3, AllKinds) \cup S1(E3, 3, AllKinds) \cup S1(E3, 4, {"collect2", "nonempty"}) \cup S1(E4, 3, AllKinds)
+               \cup S2(E3, E3, 2, AllKinds) \cup S2(E3, E2, 3, {"collect2"}) \cup S2(E2, E4, 2, AllKinds)
 Tiny(u) == S1(E3, 2, {"collect2", "nonempty"}) \cup S2(E3, E2, 1, {"collect"})
 Scenarios == CASE U = "quick" -> Quick(U) [] U = "thorough" -> Thorough(U) [] U = "tiny" -> Tiny(U)
 
@@ -143,7 +143,7 @@ IterOnceEach == (phase = "done" /\ out # <<>>) =>
 \* MapBins: same cells, every cell the mapping of the corresponding cell (as many histograms as the
 \* shortest per-cell result)
 MapShape == (phase = "done" /\ out # <<>>) =>
-              \A m \in {"tag", "dup", "drop"} :
+              \A m \in {"tag", "dup", "drop", "seen"} :
                 LET ms == MapSem(m, out[1], edges) IN
                 \A k \in 1..Len(ms) : /\ DOMAIN ms[k] = DOMAIN out[1]
                                       /\ \A idx \in Cells(edges) : ms[k][idx] = MapRes(m, out[1][idx])[k]
@@ -158,5 +158,5 @@ Emitted == Done => PrintT(ToJson([
    hists |-> NestAll(out), last |-> last,
    iter |-> it,
    maps |-> IF out = <<>> THEN <<>>
-            ELSE [m \in {"tag", "dup", "drop"} |-> NestAll(MapSem(m, out[1], edges))]]))
+            ELSE [m \in {"tag", "dup", "drop", "seen"} |-> NestAll(MapSem(m, out[1], edges))]]))
 =============================================================================
